@@ -1,1 +1,206 @@
-From Coq Require Import ZArith List.
+(* C16, layer 1 of the round trip: the entity codec.  unescape (escape v) = v for every NUL-free
+   byte string, against the tables regenerated from Xml.cpp on every run (the per-byte fact is a
+   vm_compute sweep over 1..255 through the generated tables; the lifting to strings is by
+   induction). *)
+From Coq Require Import ZArith List Bool Lia.
+From Xml Require Import Gen_Xml XmlSpec XmlModel.
+Import ListNotations.
+Local Open Scope Z_scope.
+Local Open Scope bool_scope.
+
+(* ---- find_semi ---------------------------------------------------------------------------- *)
+
+Lemma find_semi_len : forall l sq after, find_semi l = Some (sq, after) -> (length after < length l)%nat.
+Proof.
+  induction l as [|c r IH]; intros sq after H; cbn [find_semi] in H; [discriminate|].
+  destruct (c =? 0); [discriminate|].
+  destruct (c =? 59).
+  - inversion H; subst. cbn [length]. lia.
+  - destruct (find_semi r) as [[a b]|] eqn:E; [|discriminate].
+    inversion H; subst. specialize (IH _ _ eq_refl). cbn [length]. lia.
+Qed.
+
+Lemma find_semi_app : forall a sq r rest, find_semi a = Some (sq, r) -> find_semi (a ++ rest) = Some (sq, r ++ rest).
+Proof.
+  induction a as [|c a IH]; intros sq r rest H; cbn [find_semi app] in *; [discriminate|].
+  destruct (c =? 0); [discriminate|].
+  destruct (c =? 59).
+  - inversion H; subst. reflexivity.
+  - destruct (find_semi a) as [[x y]|] eqn:E; [|discriminate].
+    inversion H; subst. rewrite (IH _ _ rest eq_refl). reflexivity.
+Qed.
+
+(* ---- unesc does not depend on the fuel once there is enough of it -------------------------- *)
+
+Lemma unesc_fuel : forall f1 f2 l, (length l <= f1)%nat -> (length l <= f2)%nat -> unesc f1 l = unesc f2 l.
+Proof.
+  induction f1 as [|f1 IH]; intros f2 l H1 H2.
+  - destruct l; [|cbn [length] in H1; lia]. destruct f2; reflexivity.
+  - destruct f2 as [|f2].
+    + destruct l; [reflexivity|cbn [length] in H2; lia].
+    + destruct l as [|c l1]; [reflexivity|]. cbn [length] in H1, H2.
+      cbn [unesc].
+      destruct (negb (c =? 38)).
+      * f_equal. apply IH; lia.
+      * destruct (find_semi l1) as [[sq after]|] eqn:E.
+        -- pose proof (find_semi_len _ _ _ E) as HL.
+           assert (HA : unesc f1 after = unesc f2 after) by (apply IH; lia).
+           assert (HB : unesc f1 l1 = unesc f2 l1) by (apply IH; lia).
+           rewrite HA, HB. reflexivity.
+        -- f_equal. apply IH; lia.
+Qed.
+
+(* what the code does with the sequence between '&' and ';' *)
+Definition decode_sq (sq : list Z) : option (list Z) :=
+  if hd 0 sq =? 35 then option_map utf8 (scan_u sq)
+  else option_map (fun ch => [ch]) (lookup_entity sq gen_escapeStrings gen_escapeChars).
+
+Lemma hd_semi : forall sq after, (hd 0 (sq ++ 59 :: after) =? 35) = (hd 0 sq =? 35).
+Proof. intros [|x sq] after; reflexivity. Qed.
+
+Lemma find_semi_split : forall l sq after, find_semi l = Some (sq, after) -> l = sq ++ 59 :: after.
+Proof.
+  induction l as [|c r IH]; intros sq after H; cbn [find_semi] in H; [discriminate|].
+  destruct (c =? 0); [discriminate|].
+  destruct (c =? 59) eqn:E59.
+  - inversion H; subst. apply Z.eqb_eq in E59. subst. reflexivity.
+  - destruct (find_semi r) as [[a b]|] eqn:E; [|discriminate].
+    inversion H; subst. rewrite (IH _ _ eq_refl). reflexivity.
+Qed.
+
+(* unfolding equations of [unescape] *)
+Lemma unescape_nil : unescape [] = [].
+Proof. reflexivity. Qed.
+
+Lemma unescape_plain : forall c l, c <> 38 -> unescape (c :: l) = c :: unescape l.
+Proof.
+  intros c l Hc. unfold unescape. cbn [length unesc].
+  destruct (c =? 38) eqn:E; [apply Z.eqb_eq in E; contradiction|]. reflexivity.
+Qed.
+
+Lemma unescape_amp_none : forall l, find_semi l = None -> unescape (38 :: l) = 38 :: unescape l.
+Proof.
+  intros l H. unfold unescape. cbn [length unesc]. cbn [Z.eqb Pos.eqb negb]. rewrite H. reflexivity.
+Qed.
+
+Lemma unescape_amp_some : forall l sq after, find_semi l = Some (sq, after) ->
+  unescape (38 :: l) = match decode_sq sq with Some out => out ++ unescape after | None => 38 :: unescape l end.
+Proof.
+  intros l sq after H. unfold unescape. cbn [length unesc]. cbn [Z.eqb Pos.eqb negb]. rewrite H.
+  pose proof (find_semi_len _ _ _ H) as HL.
+  rewrite (unesc_fuel (length l) (length after) after) by lia.
+  unfold decode_sq. rewrite (find_semi_split _ _ _ H) at 1. rewrite hd_semi.
+  destruct (hd 0 sq =? 35).
+  - destruct (scan_u sq); reflexivity.
+  - destruct (lookup_entity sq gen_escapeStrings gen_escapeChars); reflexivity.
+Qed.
+
+(* ---- the per-byte fact, checked against the generated tables ------------------------------- *)
+
+Definition opt_list_eqb (a : option (list Z)) (b : list Z) : bool :=
+  match a with Some x => list_eqb x b | None => false end.
+
+Definition codec_ok (c : Z) : bool :=
+  match esc_byte c with
+  | [x] => (x =? c) && negb (c =? 38)
+  | x :: body => (x =? 38) &&
+                 match find_semi body with
+                 | Some (sq, []) => opt_list_eqb (decode_sq sq) [c]
+                 | _ => false
+                 end
+  | [] => false
+  end.
+
+(* bytes that toString may put between quotes / in front of '<' without ending the token early *)
+Definition esc_out_ok (c : Z) : bool :=
+  forallb (fun x => negb (x =? 0) && negb (x =? 34) && negb (x =? 60) && negb (x =? 10) && negb (x =? 13) && (1 <=? x) && (x <=? 255))
+          (esc_byte c).
+
+Fixpoint zrange (lo : Z) (n : nat) : list Z := match n with O => [] | S n' => lo :: zrange (lo + 1) n' end.
+
+Lemma zrange_in : forall n lo c, lo <= c < lo + Z.of_nat n -> In c (zrange lo n).
+Proof.
+  induction n as [|n IH]; intros lo c H; [lia|].
+  cbn [zrange]. destruct (Z.eq_dec lo c) as [->|Hne]; [left; reflexivity|right].
+  apply IH. lia.
+Qed.
+
+Lemma codec_sweep : forallb (fun c => codec_ok c && esc_out_ok c) (zrange 1 255) = true.
+Proof. vm_compute. reflexivity. Qed.
+
+Lemma value_byte_range : forall c, value_byte c = true -> 1 <= c < 1 + Z.of_nat 255.
+Proof. intros c H. unfold value_byte in H. apply andb_prop in H. destruct H as [H1 H2]. lia. Qed.
+
+Lemma codec_ok_all : forall c, value_byte c = true -> codec_ok c = true /\ esc_out_ok c = true.
+Proof.
+  intros c H. pose proof codec_sweep as S. rewrite forallb_forall in S.
+  specialize (S c (zrange_in _ _ _ (value_byte_range _ H))). apply andb_prop in S. exact S.
+Qed.
+
+Lemma list_eqb_eq : forall a b, list_eqb a b = true -> a = b.
+Proof.
+  induction a as [|x a IH]; intros [|y b] H; cbn [list_eqb] in H; try discriminate; [reflexivity|].
+  apply andb_prop in H. destruct H as [H1 H2]. apply Z.eqb_eq in H1. subst. f_equal. apply IH. exact H2.
+Qed.
+
+Lemma list_eqb_refl : forall a, list_eqb a a = true.
+Proof. induction a as [|x a IH]; cbn [list_eqb]; [reflexivity|]. rewrite Z.eqb_refl, IH. reflexivity. Qed.
+
+Lemma unescape_esc_byte : forall c rest, value_byte c = true -> unescape (esc_byte c ++ rest) = c :: unescape rest.
+Proof.
+  intros c rest Hc. destruct (codec_ok_all c Hc) as [Hok _]. unfold codec_ok in Hok.
+  destruct (esc_byte c) as [|x body] eqn:E; [discriminate|].
+  destruct body as [|y body'].
+  - apply andb_prop in Hok. destruct Hok as [H1 H2]. apply Z.eqb_eq in H1. subst x.
+    cbn [app]. apply unescape_plain. intro Heq. subst. discriminate.
+  - apply andb_prop in Hok. destruct Hok as [H1 H2]. apply Z.eqb_eq in H1. subst x.
+    remember (y :: body') as body.
+    destruct (find_semi body) as [[sq after]|] eqn:F; [|discriminate].
+    destruct after; [|discriminate].
+    cbn [app]. rewrite (unescape_amp_some (body ++ rest) sq ([] ++ rest) (find_semi_app _ _ _ rest F)).
+    destruct (decode_sq sq) as [out|]; [|discriminate].
+    cbn [opt_list_eqb] in H2. apply list_eqb_eq in H2. subst out. reflexivity.
+Qed.
+
+Lemma unescape_escape_app : forall v rest, wf_value v = true -> unescape (escape v ++ rest) = v ++ unescape rest.
+Proof.
+  induction v as [|c v IH]; intros rest H; [reflexivity|].
+  unfold wf_value in H. cbn [forallb] in H. apply andb_prop in H. destruct H as [Hc Hv].
+  change (escape (c :: v)) with (esc_byte c ++ escape v). rewrite <- app_assoc. rewrite unescape_esc_byte by exact Hc.
+  cbn [app]. f_equal. apply IH. exact Hv.
+Qed.
+
+(* the codec theorem *)
+Lemma unescape_escape : forall v, wf_value v = true -> unescape (escape v) = v.
+Proof.
+  intros v H. rewrite <- (app_nil_r (escape v)). rewrite unescape_escape_app by exact H.
+  rewrite unescape_nil. apply app_nil_r.
+Qed.
+
+(* escape never emits a byte that would end an attribute string or a text node early *)
+Definition safe_out (x : Z) : bool :=
+  negb (x =? 0) && negb (x =? 34) && negb (x =? 60) && negb (x =? 10) && negb (x =? 13) && (1 <=? x) && (x <=? 255).
+
+Lemma escape_safe : forall v, wf_value v = true -> forallb safe_out (escape v) = true.
+Proof.
+  induction v as [|c v IH]; intros H; [reflexivity|].
+  unfold wf_value in H. cbn [forallb] in H. apply andb_prop in H. destruct H as [Hc Hv].
+  change (escape (c :: v)) with (esc_byte c ++ escape v). rewrite forallb_app. rewrite (IH Hv).
+  destruct (codec_ok_all c Hc) as [_ Hs]. unfold esc_out_ok in Hs. unfold safe_out. rewrite Hs. reflexivity.
+Qed.
+
+(* escape maps non-blank strings to strings whose first non-space byte exists: the escaped form of
+   a space byte is the byte itself, and a non-space byte never escapes to something starting with a
+   space *)
+Definition esc_space_ok (c : Z) : bool :=
+  if is_space c then (if (c =? 10) || (c =? 13) then true else list_eqb (esc_byte c) [c])
+  else match esc_byte c with x :: _ => negb (is_space x) | [] => false end.
+
+Lemma esc_space_sweep : forallb esc_space_ok (zrange 1 255) = true.
+Proof. vm_compute. reflexivity. Qed.
+
+Lemma esc_space_all : forall c, value_byte c = true -> esc_space_ok c = true.
+Proof.
+  intros c H. pose proof esc_space_sweep as S. rewrite forallb_forall in S.
+  exact (S c (zrange_in _ _ _ (value_byte_range _ H))).
+Qed.
